@@ -43,6 +43,7 @@ type zzEvent struct {
 	key   int
 	val   int
 	cause DeletionCause
+	w     uint32 // model side only: weight of the removed entry
 }
 
 type zzEvents struct {
@@ -134,10 +135,10 @@ func zzNewEnv(cfg zzCfg) *zzEnv {
 		Executor: env.ex.exec,
 		Logger:   &NoopLogger{},
 		OnAtomicDeletion: func(e DeletionEvent[int, int]) {
-			env.ev.atomic = append(env.ev.atomic, zzEvent{e.Key, e.Value, e.Cause})
+			env.ev.atomic = append(env.ev.atomic, zzEvent{key: e.Key, val: e.Value, cause: e.Cause})
 		},
 		OnDeletion: func(e DeletionEvent[int, int]) {
-			env.ev.plain = append(env.ev.plain, zzEvent{e.Key, e.Value, e.Cause})
+			env.ev.plain = append(env.ev.plain, zzEvent{key: e.Key, val: e.Value, cause: e.Cause})
 		},
 		InitialCapacity: cfg.icap,
 	}
